@@ -13,7 +13,7 @@ def check(tier, replay):
               ("vgroup members to 65535 and beyond, 1..300 fields, field orders x sizes around 65535, record sizes, ranks 1..40; every pair of requests", "Gen_Limits.tla", "Gen_Limits_cover_counts.cfg", "cover", {"sample": 300}),
               ("names of 1..70000 characters for 12 kinds of name (vdata, class, field, vgroup, image, attributes, dataset, dimension, external files)", "Gen_Limits.tla", "Gen_Limits_cover_names.cfg", "cover", {}),
               ("simulate depth 12 over everything", "Gen_Limits.tla", "Gen_Limits_sim.cfg", "sim", {"num_quick": 150, "num": 3000, "depth": 12})],
-        mutators={"Reserve", "AppendBig", "AddMembers", "Fields", "Order", "RecSize", "Rank", "SetName"},
+        mutators={"Reserve", "AppendBig", "SeekAppend", "AddMembers", "Fields", "Order", "RecSize", "Rank", "SetName"},
         need_actions=["Setup", "Probe"],
         tv_quick=3000, drive_timeout=300,
         assumptions=["sizes are counted in KiB; generated requests never sum to within 8 KiB of 2^31 bytes (file header and descriptor blocks are not modelled)",
